@@ -363,6 +363,8 @@ def family_cases(rng, tier):
            gen_combine_case(rng, 2, False)]
     out += [gen_long_case(rng) for _ in range(24 if tier == "quick" else 150)]
     out += [gen_ref_case(rng) for _ in range(24 if tier == "quick" else 200)]
+    for kind in (["none"] * 3 + ["list"] * 8 + ["json"] * 8 if tier == "quick" else ["none"] * 20 + ["list"] * 80 + ["json"] * 80):
+        out.append(gen_cbr_case(rng, kind))
     for k in ([1, 2, 2, 3, 3, 8] if tier == "quick" else [1, 2, 3, 8] * 6):
         out.append(gen_pool_case(rng, k))
     out += [gen_pool_case(rng, 2, "pathos"), gen_pool_case(rng, 3, "pathos")]     # >= 4 s each: the code polls with time.sleep(4)
@@ -565,6 +567,55 @@ def _coq_sized(c, r):
     return all((not b.get("truncated")) and b["nrows"] <= 2 * len(r["cands"]) + 8 for b in r["batches"])
 
 
+def cbr_expected_cols(c):
+    """The batch's feature space under --feature_set_focus: the file's columns that the focus names, plus the label, in file order
+    ("every feature paired with the label": the label never leaves the feature space)."""
+    focus = c["cbr"]["focus"]
+    if not focus:
+        return list(c["cols"])
+    if focus == "_all_from_reference_JSON":
+        keep = set()
+        for item in list(c.get("ref") or []) + list(c.get("ref_fields") or []):
+            keep.update(item.split(","))
+    else:
+        keep = set(focus.split(","))
+    keep.add(c["label"])
+    return [x for x in c["cols"] if x in keep]
+
+
+def gen_cbr_case(rng, kind):
+    """One mini-batch through compute_batch_ranking (serial pool) with --feature_set_focus in {None, explicit list, the features of a
+    reference model json}; non-3mr, non-prior heuristics; plain reference features (no 'a,b' combinations: those would make
+    compute_combined_features add columns)."""
+    n = rng.randint(2, 10)
+    cols = ["c%d%s" % (i, "".join(rng.choice("abxyz_") for _ in range(rng.randint(0, 4)))) for i in range(n)]
+    label = rng.choice(cols)
+    others = [x for x in cols if x != label]
+    heuristic = rng.choice(["Constant", "Constant", "max-value-coverage"])
+    tro = rng.choice(["True", "False"])
+    c = {"cols": cols, "label": label, "heuristic": heuristic, "tro": tro, "batches": rng.choice([1, 1, 2]),
+         "nrows": rng.randint(4, 20), "data_seed": rng.randint(0, 10 ** 6)}
+    sub = rng.sample(others, rng.randint(0, len(others)))
+    if kind == "none":
+        c["cbr"] = {"focus": None}
+    elif kind == "list":
+        names = list(sub) + ([label] if rng.random() < 0.4 else []) + (["absent_" + _simple(rng).strip() or "q"] if rng.random() < 0.3 else [])
+        rng.shuffle(names)                      # order differing from the file's column order
+        if not names:
+            names = [rng.choice(cols)]
+        c["cbr"] = {"focus": ",".join(names)}
+    else:
+        k = rng.randint(0, len(sub))
+        c["ref"] = sub[:k] + (["absentfeature"] if rng.random() < 0.3 else []) + ([label] if rng.random() < 0.15 else [])
+        c["ref_fields"] = sub[k:]
+        if not c["ref"] and not c["ref_fields"]:
+            c["ref"] = [others[0]] if others else [label]
+        c["cbr"] = {"focus": "_all_from_reference_JSON"}
+    m = approx_ncands(cbr_expected_cols(c), label, heuristic, tro)
+    c["cap"] = rng.choice([10 ** 6, 2 ** 15, m, rng.randint(0, m + 2)])
+    return c
+
+
 def gen_ref_case(rng):
     """Reference-model cases: prior heuristics (the filter is active) and others (it is not), reference features that are columns,
     'b,a' lists naming an ' AND ' column, absent names, sometimes the label."""
@@ -613,6 +664,13 @@ def _impl_view(r):
 
 def evaluate(cases, tag="C06", use_coq=True):
     """-> list of verdict dicts {ok, clause, obligation, impl, model, list_differs, sel_differs, ncands, res, by}"""
+    def prep(c):
+        if c.get("cbr"):
+            c = dict(c, cbr=dict(c["cbr"], expected_cols=cbr_expected_cols(c)))
+        if c.get("prelude"):
+            c = dict(c, prelude=[prep(x) for x in c["prelude"]])
+        return c
+    cases = [prep(c) for c in cases]
     res = vlib.run_impl("impl_c06.py", {"cases": cases})["results"]
     out = [None] * len(cases)
     pre = [None] * len(cases)
@@ -682,6 +740,9 @@ def evaluate(cases, tag="C06", use_coq=True):
             good = False
             clause = _mset_diff(c, r, model_ix)
             obligation = MSET_OBLIGATION
+        if not good and c.get("cbr") and r.get("frame_cols_observed") is not None and list(r["frame_cols_observed"]) != list(c["cols"]):
+            clause = "%s  [compute_batch_ranking ranked a frame with columns %r; --feature_set_focus %r keeps %r (the label included)]" % (
+                clause, r["frame_cols_observed"], c["cbr"]["focus"], c["cols"])
         out[i] = dict(ok=good, clause=clause, obligation=obligation, impl=_impl_view(r) if not good else None,
                       model=dict(n_candidates=ncm, rows_expected_per_batch=(1 if c["heuristic"] == "Constant" else 2) * nsel),
                       list_differs=not list_eq, sel_differs=(hs and not all(sel_same)), ncands=ncm, res=r, by="coq",
@@ -862,6 +923,10 @@ def check(run, replay):
         ml = max(len(x) for x in ecols)
         lb = "<=16" if ml <= 16 else "17-63" if ml < 64 else "64-65" if ml <= 65 else "66-128" if ml <= 128 else ">128"
         hist["max_name_length"][lb] = hist["max_name_length"].get(lb, 0) + 1
+        if c.get("cbr"):
+            fk = "none" if not c["cbr"]["focus"] else ("reference json" if c["cbr"]["focus"] == "_all_from_reference_JSON" else "explicit list")
+            hist["through_compute_batch_ranking_focus"] = hist.get("through_compute_batch_ranking_focus", {})
+            hist["through_compute_batch_ranking_focus"][fk] = hist["through_compute_batch_ranking_focus"].get(fk, 0) + 1
         if c.get("combine"):
             hist["frames_built_by_real_compute_combined_features"] += 1
         if c.get("ref") is not None:
